@@ -23,12 +23,14 @@
   one.  Every route adds exactly one new root and leaves every other tree, the flags and all
   existing handles alone, and never panics (`RouteOk`).
 
+  From a store satisfying `Forest.Inv` every route ends in a store satisfying `Forest.Inv`
+  (`C20_inv_preserved`: the new tree is structurally valid in the sense of C04).
+
   Not proved here: the parse route (serialise, then parse: C01 / C02 with the tokenizer contract;
-  checked on the implementation by the `ffixed` suite), that the new tree is structurally valid
-  (`Forest.Inv` of the resulting store: follows from C04's per-operation preservation, evaluated
-  after every route by the suite), and construction programs other than the three given orders.
+  checked on the implementation by the `ffixed` suite), and construction programs other than the
+  three given orders.
 -/
-import XotModel.Lemmas.FfixedTopDown
+import XotModel.Lemmas.FfixedValid
 
 namespace XotModel.Props
 open XotModel
@@ -122,6 +124,15 @@ theorem C20_routes_compose (route : Forest → FDocument → Option (Forest × N
       (∀ r ∈ f.roots, r ∈ f'.roots) := by
   obtain ⟨t, hx, _, _, hg'⟩ := h
   exact ⟨_, _, hx, hg', rfl, fun r hr => List.mem_append_left _ hr⟩
+
+/-- From the C04 invariant to the C04 invariant: the tree a route adds is structurally valid
+    (children ordered namespaces / attributes / normal, unique keys, no adjacent text while
+    consolidation has never been off, leaves are leaves), its handles are fresh. -/
+theorem C20_inv_preserved (route : Forest → FDocument → Option (Forest × Nat)) (f : Forest)
+    (d : FDocument) (hinv : f.Inv) (hwf : FWellFormed f d) (h : RouteOk route f d) :
+    ∃ f' root, route f d = some (f', root) ∧ f'.Inv ∧ f'.treeAt root = some (treeOf d) := by
+  obtain ⟨t, hx, he, ht, hg'⟩ := h
+  exact ⟨_, _, hx, Forest.inv_add_root f hinv d t _ he hwf hg', ht⟩
 
 /-- The statement in the form of the property text, from the empty store. -/
 theorem C20_fixed_init (d : FDocument) (hwf : d.wf true = true) (f : Forest) (root : Nat)
